@@ -653,7 +653,7 @@ impl Property for C09 {
         "fault_enumeration"
     }
     fn rule(&self) -> String {
-        "A program of 1-3 exported values and an exported function built from 16 builders (big ints, repeated and joined strings, arrays, forced lazy sequences, stacks, sets and mappings incl. ones whose hash collides, tuples, closures, optionals, nested arrays, sorted arrays), plus a second function that ends in an error value or in another violation. With the allocation-trace hook the running accounted total of an unlimited run gives every point where a new maximum is reached; the size limit is then set to each such value and to the value minus one (at most 40 points sampled, first and last always), so the allocation failure lands on every distinct allocation point. Oracle: (a) a total above L only together with AllocationLimitReached; (b) accounted bytes after instantiation >= library baseline + payload lower bound of the exported values; (c) bytes return to the post-instantiation level after each run (repeated runs, runs ending in an error or another violation) and to zero when the scope is dropped, also after every failing run; (d) once a swept limit passes every larger one passes (pre-flight estimates may be pessimistic but must be monotone), a limit far above the peak passes, passing results equal the unlimited ones, no panic. Non-trivial = at least 2 of the swept limits ended in the violation. Distinct by source.".into()
+        "A program of 1-3 exported values and an exported function built from 16 builders (big ints, repeated and joined strings, arrays, forced lazy sequences, stacks, sets and mappings incl. ones whose hash collides, tuples, closures, optionals, nested arrays, sorted arrays), plus a second function that ends in an error value or in another violation. With the allocation-trace hook the running accounted total of an unlimited run gives every point where a new maximum is reached; the size limit is then set to each such value and to the value minus one (at most 40 points sampled, first and last always), so the allocation failure lands on every distinct allocation point. Oracle: (a) a total above L only together with AllocationLimitReached; (b) accounted bytes after instantiation >= library baseline + payload lower bound of the exported values; (c) bytes return to the post-instantiation level after each run (repeated runs, runs ending in an error or another violation) and to zero when the scope is dropped, also after every failing run; (d) once a swept limit passes every larger one passes (pre-flight estimates may be pessimistic but must be monotone), a limit far above the peak passes, passing results equal the unlimited ones, no panic. Non-trivial = at least 2 of the swept limits ended in the violation. Distinct by source. library: programs of up to 12 exported functions over the whole standard library (the type-directed generator of C01), run one by one on one runtime under a generous size limit (2^40) and under a tight one (instantiation level + 300..200000 bytes) with random call / search / depth limits; oracle: accounted bytes after every run (value, error value or any violation) equal the level after instantiation and are zero after the scope is dropped; per run, an allocation may lift the total above the tight limit only if that run ends in AllocationLimitReached; a run under the tight limit either ends in that violation or returns exactly what the generous run returns. Non-trivial = the function compiled and ran to a value, an error value or a violation.".into()
     }
     fn assumptions(&self) -> Vec<String> {
         vec![
